@@ -75,7 +75,12 @@ func expectedExprSymbols(e hclsyntax.Expression) []symNode {
 	switch x := e.(type) {
 	case *hclsyntax.TupleConsExpr:
 		for i, it := range x.Exprs {
-			out = append(out, symNode{Name: fmt.Sprintf("%d", i), R: it.Range(), Children: expectedExprSymbols(it)})
+			r := it.Range()
+			if r.End.Byte < r.Start.Byte {
+				// an unclosed element (the parser leaves its end at zero): the extent that can be named is its start
+				r.End = r.Start
+			}
+			out = append(out, symNode{Name: fmt.Sprintf("%d", i), R: r, Children: expectedExprSymbols(it)})
 		}
 	case *hclsyntax.ObjectConsExpr:
 		for _, it := range x.Items {
@@ -210,7 +215,8 @@ func wsWorldSpec(npaths int) *world.Spec {
 	sp := &world.Spec{SchemaID: fmt.Sprintf("WS:%d", npaths), HookItems: -1}
 	texts := [][]world.FileSpec{
 		{{Name: "a.tf", Text: "alpha = 1\nres \"x\" {\n  inner = 2\n}\n"}, {Name: "b.tf", Text: "beta = [1, 2]\n"}},
-		{{Name: "main.tf", Text: "alpha = 2\ngamma \"g\" \"h\" {\n}\n"}},
+		// (headers not written the way symbol names are rendered: several blanks, bare-word labels, escapes)
+		{{Name: "main.tf", Text: "alpha = 2\ngamma \"g\" \"h\" {\n}\nomega   \"o\"\t\"p\" {\n}\nsigma bare word {\n}\ntau \"caf\\u00e9\" {\n}\n"}},
 		{{Name: "z.tf", Text: "res \"y\" {\n}\nres \"x\" {\n}\n"}, {Name: "a.tf", Text: "delta = { alpha = 1 }\n"}},
 		{{Name: "only.tf", Text: ""}},
 	}
